@@ -81,19 +81,21 @@ type FnRun struct {
 	ghostDecls   map[string]string
 	intMode      bool
 	pendingFree  map[string]Val
+	loopHavoc    bool
 	FnName       string
 }
 
 type loopInfo struct {
-	head    *ssa.BasicBlock
-	ord     int
-	body    map[*ssa.BasicBlock]bool
-	cells   map[*ssa.Alloc]bool
-	mems    map[string]bool
-	allMem  bool
-	hasCall bool
-	hasWait bool
-	atomics bool
+	head      *ssa.BasicBlock
+	ord       int
+	body      map[*ssa.BasicBlock]bool
+	cells     map[*ssa.Alloc]bool
+	mems      map[string]bool
+	allMem    bool
+	hasCall   bool
+	hasWait   bool
+	atomics   bool
+	frameArrs map[string]bool
 }
 
 func (r *FnRun) freshName(hint string) string {
@@ -439,16 +441,74 @@ func (r *FnRun) loopCallEffect(li *loopInfo, c ssa.CallInstruction) {
 	}
 	if cc, ok := r.E.Contracts[name]; ok {
 		pure := len(cc.Modifies) > 0
+		specific := len(cc.Modifies) > 0
 		for _, m := range cc.Modifies {
 			if m != "nothing" {
 				pure = false
+			}
+			if m == "everything" {
+				specific = false
 			}
 		}
 		if pure {
 			return
 		}
+		if specific && r.loopModifies(li, callee, cc) {
+			return
+		}
 	}
 	li.hasCall = true
+}
+
+// loopModifies marks the arrays a callee's `modifies object(p) / p.f / bytes()`
+// clause can touch (resolved through the callee's parameter types).
+func (r *FnRun) loopModifies(li *loopInfo, callee *ssa.Function, cc *FuncContract) bool {
+	ptype := map[string]types.Type{}
+	sig := callee.Signature
+	if recv := sig.Recv(); recv != nil {
+		ptype[recv.Name()] = recv.Type()
+	}
+	for i := 0; i < sig.Params().Len(); i++ {
+		ptype[sig.Params().At(i).Name()] = sig.Params().At(i).Type()
+	}
+	for _, m := range cc.Modifies {
+		if m == "nothing" {
+			continue
+		}
+		for _, item := range strings.Split(m, ",") {
+			item = strings.TrimSpace(item)
+			switch {
+			case strings.HasPrefix(item, "bytes("):
+				li.mems["M8"] = true
+			case strings.HasPrefix(item, "array(") && strings.HasSuffix(item, ")"):
+				nm := item[6 : len(item)-1]
+				root := r
+				for root.parent != nil {
+					root = root.parent
+				}
+				if _, known := root.arrSorts[nm]; !known {
+					return false // element sort unknown here: treat the call as writing anything
+				}
+				li.mems[nm] = true
+			case strings.HasPrefix(item, "object(") && strings.HasSuffix(item, ")"):
+				t, ok := ptype[strings.TrimSpace(item[7:len(item)-1])]
+				if !ok {
+					return false
+				}
+				pt, ok := t.Underlying().(*types.Pointer)
+				if !ok {
+					return false
+				}
+				for _, ai := range r.objectArrays(pt.Elem(), BVInt(0, 64, false)) {
+					li.mems[ai.Arr] = true
+					r.noteArrSort(ai.Arr, ai.Sort)
+				}
+			default:
+				return false
+			}
+		}
+	}
+	return true
 }
 
 func (r *FnRun) markFieldStore(li *loopInfo, fa *ssa.FieldAddr) bool {
@@ -598,6 +658,14 @@ func (r *FnRun) execBlockPhi(b *ssa.BasicBlock, from *ssa.BasicBlock, st *State,
 		if isBack {
 			// arbitrary iteration completed: invariant preserved, measure decreased
 			r.checkInvariants(st, li, "inv-preserved")
+			var fa []string
+			for m := range li.frameArrs {
+				fa = append(fa, m)
+			}
+			sort.Strings(fa)
+			for _, m := range fa {
+				r.addGoal(st, fmt.Sprintf("loop%d/frame-preserved.%s", li.ord, m), "", r.entryFrame(st, m), nil)
+			}
 			if m0, ok := st.loopM[b]; ok {
 				for _, cl := range r.C.ByKind("decreases") {
 					if cl.Loop != li.ord {
@@ -705,13 +773,24 @@ func (r *FnRun) havocLoop(st *State, li *loopInfo, b *ssa.BasicBlock) {
 	for _, m := range names {
 		if li.allMem || li.mems[m] || li.hasCall {
 			st.mem[m] = st.declare(r.freshName(m+"_l"+fmt.Sprint(li.ord)), fieldArraySort(r.arrElemSort(m)))
+			// implicit loop invariant (checked at every back edge): memory that was
+			// valid at function entry and is not covered by `modifies` keeps its
+			// entry contents; only memory allocated by this invocation may differ
+			if len(r.C.Locks) == 0 && !li.atomics {
+				st.assume(r.entryFrame(st, m), "implicit loop frame invariant for "+m)
+				r.loopHavoc = true
+				if li.frameArrs == nil {
+					li.frameArrs = map[string]bool{}
+				}
+				li.frameArrs[m] = true
+			}
 		}
 	}
 	if li.allMem || li.hasCall {
 		st.epoch++
 	}
 	if li.atomics {
-		for _, g := range []string{"cas_dec", "cas_other", "add_one", "add_other", "stores"} {
+		for _, g := range []string{"cas_dec", "cas_other", "add_one", "add_other", "stores", "signals"} {
 			st.ghost["ghost:"+g] = st.declare(r.freshName("gh_"+g), BV(32, false))
 		}
 	}
@@ -1260,7 +1339,26 @@ func (r *FnRun) convert(st *State, v Val, from, to types.Type) Val {
 			return Term{fmt.Sprintf("((_ %s %d) RTZ %s)", op, ts.W, t.S), ts}
 		}
 	}
-	// string <-> []byte etc. are library-level conversions
+	// string <-> []byte / []rune: library-level conversions; the result is a fresh
+	// value whose length is bounded by the source (contents not modelled)
+	isStr := func(t types.Type) bool {
+		b, ok := t.Underlying().(*types.Basic)
+		return ok && b.Info()&types.IsString != 0
+	}
+	_, toSlice := to.Underlying().(*types.Slice)
+	_, fromSlice := from.Underlying().(*types.Slice)
+	if (isStr(from) && toSlice) || (fromSlice && isStr(to)) {
+		r.E.Trusted["go conversions string<->[]byte/[]rune: fresh result, 0 <= len(result) <= 4*len(source)+4 (contents not modelled)"] = true
+		res := r.freshVal(st, "conv", to)
+		r.assumeTypeInv(st, res, to)
+		src := v.(*StructVal)
+		rl := res.(*StructVal).F[1].(Term)
+		st.assume(Le(rl, Add(Mul(src.F[1].(Term), BVInt(4, 64, true)), BVInt(4, 64, true))), "length of converted value")
+		if toSlice {
+			st.assume(Eq(res.(*StructVal).F[2].(Term), rl), "cap == len for a converted slice")
+		}
+		return res
+	}
 	panic(unsupported(fmt.Sprintf("conversion %s -> %s", from, to)))
 }
 
@@ -1712,6 +1810,9 @@ func (r *FnRun) finish() {
 		case "return":
 			nret++
 			env := r.env(o.St, r.Entry)
+			if len(c.Locks) > 0 {
+				env = r.lockEnv(o.St)
+			}
 			r.bindResults(env, o)
 			i := 0
 			for _, cl := range c.ByKind("ensures") {
